@@ -77,6 +77,7 @@ func checkC03(c *Check) {
 	c.Rule("C03.R3", "return address: the callback's success answer is a 302 to the RequestedURL stored at the redirect (C13.R3), reached on every path after the tokens were bound.", 2)
 	c.Rule("C03.R4", "`expiry unknown` is encoded the same way by both writers and understood by the reader: every write of AccessTokenExpiresAt computed from the IdP's expires_in happens under expires_in > 0 (otherwise the field stays zero or is carried over), and the expiry test applies the access-token clause only when the stored time is not zero.", 3)
 	c.Rule("C03.R5", "tolerant decoding: both IdP-response validators compare token_type with strings.EqualFold against \"Bearer\", agree on their common checks, reject only a negative expires_in, and the response decoder does not enable DisallowUnknownFields.", 4)
+	c.Rule("C03.R7", "no extra rejections: every `invalid` outcome of the ID-token validator and of the two IdP-response validators is one of the enumerated, standards-mandated reasons (token does not parse; required nonce absent / not a string / different; no audience element equals the client id; key source or signature verification failed; token_type not Bearer; negative expires_in; access token missing although forwarding is configured). Any other rejection could refuse a compliant provider's answer and is a violation.", 8)
 	c.Rule("C03.R6", "no second trip: from a successful read of unexpired tokens the OK writer is reachable without any token-endpoint call or login redirect.", 1)
 	if !requireModel(c, "C03.R1", m, "cb.", "redirect.cookie", "redirect.setstate", "redirect.gens", "hw.") {
 		return
@@ -155,6 +156,16 @@ func checkC03(c *Check) {
 	stored := extractOf(m.CbGetState, 0)
 	c.Obl(isFieldOf(m.CbLocation, "RequestedURL", func(b ssa.Value) bool { return stored != nil && sameVal(b, stored) }), "C03.R3", "callback-location", P.Pos(cb.Pos()),
 		"Location = stored RequestedURL", "the callback does not redirect to the stored RequestedURL")
+
+	okReq, whyReq := false, "RequestedURL not assigned exactly once"
+	if vals := m.RedirStateLit["RequestedURL"]; len(vals) == 1 && m.RedirHTTP != nil {
+		okReq, whyReq = requestedURLLeavesOK(m, vals[0])
+	}
+	c.Obl(okReq, "C03.R3", "stored-return-url", P.Pos(R.Redirect.Pos()), "the URL stored for the return trip is scheme://host path [?query] of the request, verbatim (no re-encoding)",
+		"stored return URL: "+whyReq+" — the browser would not be returned to the URL it first asked for")
+
+	// ---- R7: no extra rejections
+	c03R7(c, R, m)
 
 	// ---- R4
 	n := 0
@@ -528,6 +539,33 @@ func checkC11(c *Check) {
 		}
 	}
 
+	// new values replace old ones whenever the IdP returned them: with `answer.F != ""` assumed, no store of
+	// the stored tokens' F into the merged object may be the last word (the old value must not survive)
+	for _, fld := range []string{"AccessToken", "RefreshToken"} {
+		atoms := atomEnv{}
+		for _, b := range rf.Blocks {
+			for _, ins := range b.Instrs {
+				bo, ok := ins.(*ssa.BinOp)
+				if !ok || (bo.Op != token.NEQ && bo.Op != token.EQL) {
+					continue
+				}
+				if s, isC := constString(bo.Y); isC && s == "" {
+					if base, f, okf := fieldLoad(resolveCell(stripConv(bo.X))); okf && f != nil && f.Name() == fld && body != nil && sameVal(base, body) {
+						atoms[bo] = bo.Op == token.NEQ
+					}
+				}
+			}
+		}
+		if len(atoms) == 0 {
+			continue
+		}
+		// along every consistent path to a non-nil return, the LAST store to the merged field must be the IdP's value
+		bad := lastStoreIsOld(rf, atoms, fld, oldTok)
+		c.Obl(!bad, "C11.R2", "merge/"+fld+"/new-value-wins", P.Pos(rf.Pos()),
+			"whenever the IdP returned a non-empty "+fld+" the merged object carries it",
+			"the IdP returned a non-empty "+fld+" but a path exists on which the merged object keeps the stored one (a rotated refresh token / new access token is dropped)")
+	}
+
 	// ---- R3
 	ok, why := refreshSummary(R)
 	c.Obl(ok, "C11.R3", "validated-merged-result", P.Pos(rf.Pos()), "non-nil only after exchange OK and validator(returned.IDToken) true", "refresh helper: "+why)
@@ -575,4 +613,291 @@ func checkC11(c *Check) {
 	c.Obl(okAllow, "C11.R4", "success-allowed-same-object", P.Pos(site.Pos()), "the same merged object is allowed after it was stored", "the object that is allowed after a refresh is not the merged object that was stored")
 	_ = strings.TrimSpace
 	_ = strParams
+}
+
+
+// lastStoreIsOld: is there a path, consistent with atoms, from entry to a non-nil return on which the last
+// store into field fld of the merged object takes its value from the stored tokens (parameter old)?
+func lastStoreIsOld(fn *ssa.Function, atoms atomEnv, fld string, old *ssa.Parameter) bool {
+	isFieldStore := func(i ssa.Instruction) (isStore bool, fromOld bool) {
+		s, ok := i.(*ssa.Store)
+		if !ok {
+			return false, false
+		}
+		fa, isF := s.Addr.(*ssa.FieldAddr)
+		if !isF || typeID(fa.X.Type()) != idTokenResponse {
+			return false, false
+		}
+		f := fieldOf(fa.X.Type(), fa.Field)
+		if f == nil || f.Name() != fld {
+			return false, false
+		}
+		for _, l := range Leaves(s.Val, leafOpts{noConcat: true}) {
+			if base, lf, okf := fieldLoad(resolveCell(l)); okf && lf != nil && resolveCell(stripConv(base)) == ssa.Value(old) {
+				return true, true
+			}
+		}
+		return true, false
+	}
+	// for every old-store: can a non-nil return be reached from it without passing a non-old store, on a
+	// path consistent with the atoms — and is the old-store itself reachable consistently?
+	for _, b := range fn.Blocks {
+		for _, ins := range b.Instrs {
+			st, fromOld := isFieldStore(ins)
+			if !st || !fromOld {
+				continue
+			}
+			target := ins
+			reach := existsPath(fn, atoms, func(i ssa.Instruction) bool { return i == target }, nil)
+			if reach == nil {
+				continue
+			}
+			// from the store onwards (atoms still apply): explore with a function-local search
+			hit := existsPathFrom(fn, atoms, target, func(i ssa.Instruction) bool {
+				r, ok := i.(*ssa.Return)
+				return ok && !isNilConst(r.Results[0])
+			}, func(i ssa.Instruction) bool {
+				s2, old2 := isFieldStore(i)
+				return s2 && !old2
+			})
+			if hit != nil {
+				return true
+			}
+		}
+	}
+	return false
+}
+
+
+// c03R7 classifies every `invalid` return of the validators by the facts that dominate it.
+func c03R7(c *Check, R *Roles, m *hModel) {
+	P := c.P
+	v := R.Validator
+	ff := FactsOf(v)
+	n := 0
+	for _, r := range returnsOf(v) {
+		b, isC := constBool(r.Results[0])
+		if !isC || b {
+			continue
+		}
+		n++
+		fs := ff.At(r)
+		reason := ""
+		for cond, pol := range fs {
+			// error results of parse / key source / verify
+			if bo, ok := cond.(*ssa.BinOp); ok && isNilConst(bo.Y) && ((bo.Op == token.NEQ && pol) || (bo.Op == token.EQL && !pol)) {
+				if call, _, isCall := asCall(resolveCell(bo.X)); isCall {
+					switch {
+					case isCallToAny(call, fParseToken, fParseIDTok):
+						reason = "token does not parse"
+					case isCallTo(call, mJWKSGet):
+						reason = "key source failed"
+					case isCallTo(call, fJWSVerify):
+						reason = "signature verification failed"
+					}
+				}
+			}
+		}
+		if reason == "" {
+			// nonce reasons: facts mention the nonce claim lookup or the nonce comparison
+			for cond := range fs {
+				inner, _ := unwrapBool(cond)
+				for d := range dataDeps(inner) {
+					if gc, isCall := d.(*ssa.Call); isCall && gc.Common().IsInvoke() && gc.Common().Method.Name() == "Get" {
+						if s, isS := constString(gc.Common().Args[0]); isS && s == "nonce" {
+							reason = "nonce rule"
+						}
+					}
+				}
+			}
+		}
+		if reason == "" {
+			// audience: the match flag is false
+			for cond, pol := range fs {
+				inner, neg := unwrapBool(cond)
+				if ph, isPhi := inner.(*ssa.Phi); isPhi && isBool(ph.Type()) && (pol != neg) == false {
+					for d := range dataDeps(ph) {
+						if ac, isCall := d.(*ssa.Call); isCall && ac.Common().IsInvoke() && ac.Common().Method.Name() == "Audience" {
+							reason = "no audience element equals the client id"
+						}
+					}
+					// the phi's true edge is set under the audience comparison
+					for i, e := range ph.Edges {
+						if bv, isB := constBool(e); isB && bv {
+							for c2 := range ff.OnEdge(ph.Block().Preds[i], ph.Block()) {
+								for d := range dataDeps(c2) {
+									if ac, isCall := d.(*ssa.Call); isCall && ac.Common().IsInvoke() && ac.Common().Method.Name() == "Audience" {
+										reason = "no audience element equals the client id"
+									}
+								}
+							}
+						}
+					}
+				}
+			}
+		}
+		// the most recent condition decides: the rejection must be *because of* the classified reason, i.e. the
+		// last branch taken before the return is the classifying one
+		if reason != "" {
+			last := lastBranchCond(r)
+			if last != nil && !condMatchesReason(last, reason) {
+				reason = ""
+			}
+		}
+		c.Obl(reason != "", "C03.R7", fmt.Sprintf("validator-rejection#%d", n), P.Pos(instrPos(r)), "rejection reason: "+reason,
+			"the ID-token validator rejects a token for a reason outside the enumerated ones (condition: "+descLastCond(r)+"): a standards-compliant provider answer can be refused and the login never completes")
+	}
+	for _, fn := range idpValidators(R) {
+		for i, r := range returnsOf(fn) {
+			b, isC := constBool(r.Results[0])
+			if !isC || b {
+				continue
+			}
+			last := lastBranchCond(r)
+			reason := ""
+			if last != nil {
+				df := depFields(last)
+				inner, _ := unwrapBool(last)
+				switch {
+				case df["TokenType"]:
+					if call, _, ok := asCall(inner); ok && isCallTo(call, "strings.EqualFold") {
+						reason = "token_type not Bearer"
+					}
+				case df["ExpiresIn"]:
+					if _, op, k, ok := cmpWithConstInt(inner); ok && op == token.LSS && k == 0 {
+						reason = "negative expires_in"
+					}
+				case df["AccessToken"]:
+					reason = "access token missing although forwarding is configured"
+					// must be conjoined with GetAccessToken() != nil
+					okCfg := false
+					for cond := range FactsOf(fn).At(r) {
+						for d := range dataDeps(cond) {
+							if gc, isCall := d.(*ssa.Call); isCall && isCallTo(gc, idOIDCConfig+".GetAccessToken") {
+								okCfg = true
+							}
+						}
+					}
+					for d := range dataDeps(last) {
+						if gc, isCall := d.(*ssa.Call); isCall && isCallTo(gc, idOIDCConfig+".GetAccessToken") {
+							okCfg = true
+						}
+					}
+					if !okCfg {
+						reason = ""
+					}
+				}
+			}
+			c.Obl(reason != "", "C03.R7", fmt.Sprintf("response-rejection/%s#%d", fnKey(fn), i+1), P.Pos(instrPos(r)), "rejection reason: "+reason,
+				"the IdP-response validator "+fnKey(fn)+" rejects an answer for a reason outside the enumerated ones (condition: "+descLastCond(r)+")")
+		}
+	}
+}
+
+// lastBranchCond: the condition of the If through which the return's block is entered (nil when the
+// block has several predecessors with different conditions).
+func lastBranchCond(r *ssa.Return) ssa.Value {
+	b := r.Block()
+	for hops := 0; hops < 4; hops++ {
+		if len(b.Preds) != 1 {
+			// && / || lowering: all predecessors test conditions of the same disjunction; take the one whose phi…
+			var conds []ssa.Value
+			for _, p := range b.Preds {
+				if iff, ok := p.Instrs[len(p.Instrs)-1].(*ssa.If); ok {
+					conds = append(conds, iff.Cond)
+				}
+			}
+			if len(conds) > 0 {
+				return conds[len(conds)-1]
+			}
+			return nil
+		}
+		p := b.Preds[0]
+		if iff, ok := p.Instrs[len(p.Instrs)-1].(*ssa.If); ok {
+			return iff.Cond
+		}
+		b = p
+	}
+	return nil
+}
+
+func descLastCond(r *ssa.Return) string {
+	if c := lastBranchCond(r); c != nil {
+		return descDepth(c, 3)
+	}
+	return "?"
+}
+
+func condMatchesReason(cond ssa.Value, reason string) bool {
+	inner, _ := unwrapBool(cond)
+	deps := dataDeps(inner)
+	has := func(pred func(*ssa.Call) bool) bool {
+		for d := range deps {
+			if c, ok := d.(*ssa.Call); ok && pred(c) {
+				return true
+			}
+		}
+		if c, ok := inner.(*ssa.Call); ok && pred(c) {
+			return true
+		}
+		return false
+	}
+	switch reason {
+	case "token does not parse":
+		return has(func(c *ssa.Call) bool { return isCallToAny(c, fParseToken, fParseIDTok) })
+	case "key source failed":
+		return has(func(c *ssa.Call) bool { return isCallTo(c, mJWKSGet) })
+	case "signature verification failed":
+		return has(func(c *ssa.Call) bool { return isCallTo(c, fJWSVerify) })
+	case "nonce rule":
+		return has(func(c *ssa.Call) bool {
+			if !c.Common().IsInvoke() || c.Common().Method.Name() != "Get" {
+				return false
+			}
+			s, isS := constString(c.Common().Args[0])
+			return isS && s == "nonce"
+		}) || condIsParamOnly(inner)
+	case "no audience element equals the client id":
+		if ph, ok := inner.(*ssa.Phi); ok {
+			for d := range dataDeps(ph) {
+				if c, isC := d.(*ssa.Call); isC && c.Common().IsInvoke() && c.Common().Method.Name() == "Audience" {
+					return true
+				}
+			}
+			return phiSetUnderAudience(ph)
+		}
+	}
+	return false
+}
+
+func condIsParamOnly(v ssa.Value) bool {
+	_, ok := v.(*ssa.Parameter)
+	return ok
+}
+
+func phiSetUnderAudience(ph *ssa.Phi) bool {
+	ff := FactsOf(ph.Parent())
+	for i, e := range ph.Edges {
+		if b, isB := constBool(e); isB && b {
+			for c2 := range ff.OnEdge(ph.Block().Preds[i], ph.Block()) {
+				for d := range dataDeps(c2) {
+					if ac, isCall := d.(*ssa.Call); isCall && ac.Common().IsInvoke() && ac.Common().Method.Name() == "Audience" {
+						return true
+					}
+				}
+			}
+			// the edge may come through a jump block: look one predecessor further
+			pb := ph.Block().Preds[i]
+			for _, pp := range pb.Preds {
+				for c2 := range ff.OnEdge(pp, pb) {
+					for d := range dataDeps(c2) {
+						if ac, isCall := d.(*ssa.Call); isCall && ac.Common().IsInvoke() && ac.Common().Method.Name() == "Audience" {
+							return true
+						}
+					}
+				}
+			}
+		}
+	}
+	return false
 }
